@@ -88,12 +88,12 @@ Proof.
   induction p as [x| |ps IH|fs IH] using pat_ind'; intros v r w r' w' H; cbn [bind_pat] in H.
   - unfold alloc in H. inversion H; subst. exact (wext_alloc v w).
   - inversion H; subst. apply wext_refl.
-  - destruct v as [|vs| | |]; try discriminate.
+  - destruct v as [|vs| | | |]; try discriminate.
     revert vs r w H. induction IH as [|p ps Hp Hps IHps]; intros vs r w H; destruct vs as [|v vs]; try discriminate.
     + inversion H; subst. apply wext_refl.
     + destruct (bind_pat p v r w) as [[r1 w1]| |c] eqn:E; try discriminate.
       eapply wext_trans; [eapply Hp; eauto|]. eapply IHps; eauto.
-  - destruct v as [| |fvs| |]; try discriminate.
+  - destruct v as [| |fvs| | |]; try discriminate.
     revert r w H. induction IH as [|[f p] fs Hp Hfs IHfs]; intros r w H.
     + inversion H; subst. apply wext_refl.
     + destruct (rlookup f fvs) as [v'|]; try discriminate.
@@ -108,6 +108,37 @@ Proof.
   - unfold alloc in H.
     destruct (bind_params_x ps vs r (mkW (w_vars w ++ [v]) (w_clos w))) as [[r1 w1]| |c] eqn:E; try discriminate.
     inversion H; subst. eapply wext_trans; [exact (wext_alloc v w)|]. eapply IH; eauto.
+Qed.
+
+(* match patterns: an induction principle that reaches the sub-patterns *)
+Section MpatInd.
+  Variable P : mpat -> Prop.
+  Hypothesis HLit : forall z, P (MLit z).
+  Hypothesis HWild : P MWild.
+  Hypothesis HCon : forall tag p, P (MCon tag p).
+  Hypothesis HTup : forall ms, Forall P ms -> P (MTup ms).
+  Fixpoint mpat_ind' (m : mpat) : P m :=
+    match m with
+    | MLit z => HLit z
+    | MWild => HWild
+    | MCon tag p => HCon tag p
+    | MTup ms => HTup ms ((fix go (l : list mpat) : Forall P l :=
+                             match l with [] => Forall_nil P | x :: xs => Forall_cons x (mpat_ind' x) (go xs) end) ms)
+    end.
+End MpatInd.
+
+Lemma mbind_wext : forall m v r w r' w', mbind m v r w = Ok (r', w') -> wext w w'.
+Proof.
+  induction m as [z| |tag p|ms IH] using mpat_ind'; intros v r w r' w' H; cbn [mbind] in H.
+  - inversion H; subst. apply wext_refl.
+  - inversion H; subst. apply wext_refl.
+  - destruct p as [p|]; [|inversion H; subst; apply wext_refl].
+    destruct v; try discriminate. eapply bind_pat_wext; eauto.
+  - destruct v as [|vs| | | |]; try discriminate.
+    revert vs r w H. induction IH as [|m ms Hm Hms IHms]; intros vs r w H; destruct vs as [|v vs]; try discriminate.
+    + inversion H; subst. apply wext_refl.
+    + destruct (mbind m v r w) as [[r1 w1]| |c] eqn:E; try discriminate.
+      eapply wext_trans; [eapply Hm; eauto|]. eapply IHms; eauto.
 Qed.
 
 Definition ev_wext (ev : evaluator) : Prop :=
@@ -217,6 +248,11 @@ Section Pres.
       match type of H with context [if ?c then _ else _] => destruct c end; inversion H; subst.
       eapply wext_trans; [eapply Hrec; eauto|]. apply wext_set_var.
     - inv_bind H. inv_bind H. inversion H; subst. eapply wext_trans; eapply Hrec; eauto.
+    - inversion H; subst. apply wext_refl.
+    - destruct arg as [a|]; [|inversion H; subst; apply wext_refl].
+      inv_bind H. inversion H; subst. eapply Hrec; eauto.
+    - inv_bind H. inv_bind H. inv_bind H. inv_bind H. inversion H; subst.
+      eapply wext_trans; [eapply Hrec; eauto|]. eapply wext_trans; [eapply mbind_wext; eauto|]. eapply Hrec; eauto.
   Qed.
 End Pres.
 
